@@ -15,7 +15,13 @@ import socketio
 from . import vloop
 
 logging.getLogger('asyncio').setLevel(logging.CRITICAL)
-from .threads import ASYNC_LABELS   # noqa
+from .threads import ASYNC_LABELS, _cb_count   # noqa
+
+
+import contextvars
+# which controlled program a task belongs to (tasks it creates inherit it:
+# AsyncManager.emit sends from child tasks)
+OWNER = contextvars.ContextVar('owner', default=None)
 
 
 class Gates:
@@ -27,7 +33,7 @@ class Gates:
 
     async def gate(self, label):
         t = asyncio.current_task()
-        name = t.get_name()
+        name = OWNER.get() or t.get_name()
         if name not in self.tasks:
             return
         fut = self.loop.create_future()
@@ -36,6 +42,7 @@ class Gates:
 
     def spawn(self, name, coro_fn):
         async def body():
+            OWNER.set(name)
             await self.gate('start')
             try:
                 await coro_fn()
@@ -211,7 +218,10 @@ class AsyncDiscAdapter:
         orig_send = sio.eio.send
 
         async def send(sid, data):
-            await g.gate('eio.send')
+            # (the EVENT of an emit and the DISCONNECT of a termination are
+            # different suspension points of different programs)
+            await g.gate('eio.send_ev' if isinstance(data, str) and
+                         data.startswith('2') else 'eio.send')
             return await orig_send(sid, data)
         sio.eio.send = send
 
@@ -227,6 +237,9 @@ class AsyncDiscAdapter:
                 elif op == 'lost':
                     await me.s1.close(wait=False, abort=True,
                                       reason='transport close')
+                elif op == 'emit_cb':
+                    await sio.emit('msg', 'v1', to=me.rsid['c1'],
+                                   namespace='/', callback=lambda *x: None)
                 errs = me.tap.by_task.get(name)
                 if errs:
                     raise type(errs[0], (Exception,), {})()
@@ -284,4 +297,5 @@ class AsyncDiscAdapter:
                 'pending': pend, 'hruns': dict(self.hruns),
                 'environ': self.eid1 in sio.environ,
                 'sent': sent, 'open': not self.s1.closed, 'th': th,
+                'cb': _cb_count(m, self.rsid.get('c1')),
                 'runnable': [int(n[1:]) for n in self.g.runnable()]}
